@@ -10,7 +10,7 @@ CHECKS = {
     "C01": ("exploration",
             "Hypothesis-generated constraint programs; differential against an independent reference evaluator; pinned two-directional probes; exhaustive enumeration of small value spaces",
             "Generated flat constraint programs (all listed operator classes, widths 1..64, both signednesses, enum fields, class + inline blocks, four call kinds). Every returned state is re-evaluated by an independent reference semantics; small-domain programs are compared with the exhaustively enumerated solution set; pinned probes assert that single-violation witnesses and non-members are rejected and members are returned exactly. Search-based: it finds lowering errors on the shapes it generates, it does not prove their absence.",
-            "Trusts the reference evaluator (pvs/model/sem.py; per-node signed-iff-both-signed rule), Boolector's answers, and the renderer (literal Python source, exec'd).",
+            "Trusts the reference evaluator (pvs/model/sem.py; per-node signed-iff-both-signed rule; signed / and % towards zero; ~ after extension to the context width), Boolector's answers, and the renderer (literal Python source, exec'd). Divisors are non-zero literals; ~ as a value on unsigned operands only.",
             "5/C01"),
     "C02": ("exploration",
             "Hypothesis-generated constraint programs; satisfiability decided by exhaustive enumeration; pinned probes; exception bucketing",
@@ -35,7 +35,7 @@ CHECKS = {
     "C05": ("exploration",
             "Hypothesis-generated hard+soft programs; exact greedy-by-priority reference and result-only maximality over the enumerated solution space",
             "Small-domain programs mixing hard and soft statements (nested under if/else/implies, two class blocks, inline softs, call sequences). The hard solution set is enumerated; the result must be in it, must be maximal w.r.t. the soft terms, and must lie in the greedy set for an order consistent with the stated partial priority order; hard-satisfiable systems must never fail.",
-            "Order between softs of different class blocks is left open (any interleaving accepted).",
+            "Order between softs of different class blocks is left open (any interleaving accepted). A list family puts the softs into a foreach over a random-size list: the soft of element i applies only if the solved list has an element i.",
             "5/C05"),
     "C14": ("exploration",
             "Hypothesis-generated programs and call sequences; inferred ranges observed through the PYVSC_VERIF hook compared with projections of the enumerated solution set; seeded coupon check",
@@ -60,7 +60,7 @@ CHECKS = {
     "C08": ("exploration",
             "Hypothesis-generated object trees flattened to path-keyed reference programs; enumerated truth; pinned probes per flattened statement",
             "Trees with rand_attr/attr sub-objects, structurally identical siblings with distinguishing parent constraints, random and non-random object lists, cross-level constraints through paths and indices, violated own blocks on non-random sub-objects; results and two-directional pins are judged on the flattened program in which a sub-object's blocks count iff its whole ancestor chain is random. Sub-domains: lists holding subclass instances; lists of objects that hold ragged lists of objects reached through two foreach indices, a subscript by a non-random field that changes between calls, conditions on elements of a non-random object list.",
-            "Bit-select f[i] through a list index is not generated (the DSL reads it as an array subscript).",
+            "Classes of the tree may own a small scalar list whose elements are named through the path (s0.lx[1], arr[0].lx[1]). Bit-select f[i] through a list index is not generated (the DSL reads it as an array subscript).",
             "5/C08"),
     "C17": ("exploration",
             "generated object trees with logging pre/post_randomize callbacks; event multisets, order and observed values against the tree model",
@@ -95,7 +95,7 @@ CHECKS = {
     "C13": ("exploration",
             "generated histories with report points; report model, parsed text report and UCIS XML read-back compared with an independent dict model and the API getters",
             "Populations as in C12 plus ignore/illegal bins and optional instance names; at generated points the report model, the text report (parsed) and the written XML (re-read with PyUCIS) must list every type/instance/coverpoint/cross/bin once with the in-memory names and counts, percentages must equal the API's, and every getter must read the same before and after.",
-            "PyUCIS (third party) does the XML I/O and report arithmetic: after read-back only names and counts are compared.",
+            "PyUCIS (third party) does the XML I/O and report arithmetic: after read-back only names and counts are compared. Type-level coverpoint lines are compared with coverpoint.get_coverage() asked of every instance.",
             "5/C13"),
     "C19": ("exploration",
             "exhaustive (value, mask) sweep up to 8 bits + Hypothesis-generated pattern strings; oracle (v ^ value) & mask == 0 and the partition model",
